@@ -36,4 +36,5 @@ def run(ctx):
     ctx.run("C04.CALLID", "R-LOCK/R-ORDER", par.c04_callid)
     ctx.run("C04.CALLBACK-TOTAL", "R-ORDER", par.c04_callback_total)
     ctx.run("C04.WRAP", "R-ERRDISC", par.c04_wrap)
+    ctx.run("C04.ERROR-SURFACES", "R-FLOW", par.c04_error_surfaces)
     ctx.run("C01.STATUS-MODE", "R-SIBLING", par.c01_status_mode)
